@@ -94,8 +94,10 @@ def setVmap (f : Fld) (vmap : Option (List (String × String))) : M Fld :=
   | .error e => .error e
   | .ok mp => .ok { f with vmap := mp }
 
-/-- `field.vdims = vdims` (`field.py` 365-403): new labels, then the mapping is carried
-over position by position when there was one -/
+/-- `field.vdims = vdims` (`field.py` 365-410): new labels, then the mapping is carried
+over position by position when there was one; when the labels are REMOVED the mapping is cleared
+(repo fix 7c849c53: a mapping keyed by labels that no longer exist was refused by every later
+constructor call) -/
 def setVdims (f : Fld) (vdims : Option (List String)) : M Fld :=
   match vdimsSet f.nvdim vdims with
   | .error e => .error e
@@ -107,6 +109,7 @@ def setVdims (f : Fld) (vdims : Option (List String)) : M Fld :=
         | .error e => .error e
         | .ok mp => setVmap { f with vdims := new } (some mp)
       else .ok { f with vdims := new }
+    | none, some _ => .ok { f with vdims := none, vmap := [] }   -- labels removed: the mapping is cleared (repo fix 7c849c53)
     | _, _ => .ok { f with vdims := new }
 
 /-! ## component access, reversed mapping -/
